@@ -60,6 +60,11 @@ func genEngine(c *Ctx) error {
 	if !journalFocus && !c.Flag("drop") {
 		directedWALShrink(c)
 	}
+	if c.Flag("drop") {
+		directedDropRestart(c)
+	} else {
+		directedBlockBoundary(c, walFocus)
+	}
 	for h := 0; h < nHist; h++ {
 		ps := pick(r, enginePageSizes)
 		if ps == 65536 && r.Chance(2, 3) {
@@ -270,6 +275,93 @@ func directedWALShrink(c *Ctx) {
 			observe(c, cs, p, "directed wal-shrink: grow back")
 			c.Count("directed.wal-shrink")
 			c.Nontrivial(fmt.Sprintf("directed-wal-shrink-%d-%d", ps, cut))
+			cs.End()
+		}
+	}
+}
+
+// directedBlockBoundary: a database of several 256-page checksum blocks; transactions that touch,
+// besides page 1, only the last page of a block (256k), only the first page of the next (256k+1),
+// or both: the cached block sums of exactly the touched blocks must be recomputed.
+func directedBlockBoundary(c *Ctx, wal bool) {
+	r := c.Rng
+	for _, ps := range []int{512, 1024} {
+		cs := c.Begin()
+		do := func(op string) string { c.Count("op." + strings.SplitN(op, " ", 2)[0]); return cs.Do(op) }
+		p := newPager(r, ps, do)
+		do("open primary")
+		do("createdb")
+		n := 770 + r.Intn(60)
+		all := txShape{newN: n, pages: map[int]bool{}, commit: true}
+		for pg := 1; pg <= n; pg++ {
+			all.pages[pg] = true
+		}
+		p.journalTx(all, 0, 0)
+		observe(c, cs, p, "directed block-boundary: fill")
+		if wal {
+			p.wal = true
+			p.journalTx(txShape{newN: n, pages: map[int]bool{1: true}, commit: true}, 0, 0)
+			observe(c, cs, p, "directed block-boundary: to wal")
+		}
+		for _, pages := range [][]int{{512}, {257}, {256}, {768}, {513}, {256, 257}, {512, 513}, {511}, {769}} {
+			sh := txShape{newN: n, pages: map[int]bool{1: true}, commit: true}
+			for _, pg := range pages {
+				sh.pages[pg] = true
+			}
+			if wal {
+				p.walTx(sh, false, false, false)
+			} else {
+				p.journalTx(sh, 0, 0)
+			}
+			observe(c, cs, p, fmt.Sprintf("directed block-boundary: transaction on pages 1 and %v of %d", pages, n))
+		}
+		if wal {
+			do("ckpt")
+			p.walInit = false
+			p.walPages = map[uint32][]byte{}
+			p.walOff = 0
+			observe(c, cs, p, "directed block-boundary: checkpoint")
+		}
+		c.Count("directed.block-boundary")
+		c.Nontrivial(fmt.Sprintf("directed-block-boundary-%d-%v", ps, wal))
+		cs.End()
+	}
+}
+
+// directedDropRestart: a database is dropped and the node restarts before anything else happens
+// to it: the node must still be able to serve the (empty) snapshot of the dropped database to a
+// replica that joins afterwards, and the database can be created again on top of the tombstone.
+func directedDropRestart(c *Ctx) {
+	r := c.Rng
+	for _, ps := range []int{512, 4096} {
+		for _, again := range []bool{false, true} {
+			cs := c.Begin()
+			do := func(op string) string { c.Count("op." + strings.SplitN(op, " ", 2)[0]); return cs.Do(op) }
+			p := newPager(r, ps, do)
+			do("open primary")
+			do("createdb")
+			p.journalTx(p.randomShape(5), 0, 0)
+			p.journalTx(p.randomShape(3), 0, 0)
+			observe(c, cs, p, "directed drop-restart: populated")
+			do("drop")
+			p.dropped()
+			observe(c, cs, p, "directed drop-restart: dropped")
+			do("snapshot")
+			do("reopen")
+			p.restarted()
+			observe(c, cs, p, "directed drop-restart: restarted")
+			do("snapshot")
+			if again {
+				do("drop") // dropping what is already dropped: one more tombstone or a refusal, never a stop
+				observe(c, cs, p, "directed drop-restart: dropped again")
+				do("snapshot")
+			}
+			do("createdb")
+			p.journalTx(p.randomShape(4), 0, 0)
+			observe(c, cs, p, "directed drop-restart: created again")
+			do("snapshot")
+			c.Count("directed.drop-restart")
+			c.Nontrivial(fmt.Sprintf("directed-drop-restart-%d-%v", ps, again))
 			cs.End()
 		}
 	}
